@@ -51,7 +51,7 @@ type c04run[K any] struct {
 	m      omap.Map[K, int]
 	m2     omap.Map[K, int] // a copy of m: must share contents
 	cmp    func(a, b K) int
-	exact  bool // comparator distinguishes all spellings (String/Keys comparable literally)
+	exact  bool          // comparator distinguishes all spellings (String/Keys comparable literally)
 	gen    func(i int) K // key number i of the universe, in comparator order for int-like universes
 	uni    int
 	ref    []c04kv[K]
